@@ -14,6 +14,14 @@ import (
 	"verif/wf"
 )
 
+func sum10(c []int) int {
+	t := 0
+	for _, v := range c {
+		t += v
+	}
+	return t
+}
+
 func Run(ctx *common.Ctx) int {
 	quick := ctx.Quick()
 	var evals int64
@@ -167,6 +175,44 @@ func Run(ctx *common.Ctx) int {
 			}
 			check("ThresholdQ/len1000", qs, func() interface{} { return map[string]interface{}{"bin_counts": counts} })
 			distinct.Add(fmt.Sprint(1000, fam, t))
+		}
+	}
+	// long lists (counters, squares and sums far beyond what 20/50/1000 samples need): lengths 5000..10^6 with one
+	// over-full interval, with everything in one or two intervals, and perfectly uniform
+	for _, s := range []int{5000, 6000, 46341, 65536, 100000, 1000000} {
+		for fam := 0; fam < 5; fam++ {
+			counts := make([]int, 10)
+			switch fam {
+			case 0: // uniform
+				for b := range counts {
+					counts[b] = s / 10
+				}
+			case 1: // one interval holds 15%
+				for b := range counts {
+					counts[b] = s * 85 / 100 / 9
+				}
+				counts[3] += s - sum10(counts)
+			case 2: // everything in the last interval
+				counts[9] = s
+			case 3: // two intervals
+				counts[0], counts[5] = s/2, s-s/2
+			case 4: // mild skew with a moderate P-value
+				for b := range counts {
+					counts[b] = s / 10
+				}
+				d := int(math.Sqrt(float64(s))) / 2
+				counts[2] += d
+				counts[7] -= d
+			}
+			counts[0] += s - sum10(counts)
+			qs := make([]float64, 0, s)
+			for b, c := range counts {
+				for k := 0; k < c; k++ {
+					qs = append(qs, snap(float64(b)/10)+0.05)
+				}
+			}
+			check("ThresholdQ/long", qs, func() interface{} { return map[string]interface{}{"length": s, "bin_counts": counts} })
+			distinct.Add(fmt.Sprint("long", s, fam))
 		}
 	}
 	// ---------- the uniformity statistic next to concurrent users of the shared incomplete-gamma code ----------
